@@ -396,6 +396,57 @@ pub fn run(tier: &str) -> i32 {
         }
     }
 
+    // (B4) prior work: what a program answers does not depend on what ran before it on the same
+    //      thread (values of the same shape and another type made and dropped just before, at
+    //      addresses the allocator hands out again) - every ordered pair (W, P) of probe programs,
+    //      W then P on a fresh thread, against P alone on a fresh thread; probes test the
+    //      run-time type of temporaries of every container kind
+    {
+        const CLASSIFY: &str = "f := (v: any) -> any { return match v { q: struct{a: int} => \"struct-int\", q: struct{a: string} => \"struct-string\", q: struct{a: int, b: int} => \"struct-two\", q: struct{} => \"struct-empty\", q: [int] => \"array-int\", q: [string] => \"array-string\", q: (int, int) => \"tuple-int\", q: (string, int) => \"tuple-string\", q: () -> int => \"fn-int\", q: () -> string => \"fn-string\", q: mut int => \"cell-int\", q: mut string => \"cell-string\", => \"other\", } };";
+        const VALUES: &[(&str, &str)] = &[
+            ("struct{ a := 1 }", "struct-int"), ("struct{ a := \"s\" }", "struct-string"), ("struct{ a := 1, b := 2 }", "struct-int"), ("struct{}", "struct-empty"),
+            ("[1]", "array-int"), ("[\"s\"]", "array-string"), ("(1, 2)", "tuple-int"), ("(\"s\", 2)", "tuple-string"),
+            ("() -> int { return 1 }", "fn-int"), ("() -> string { return \"s\" }", "fn-string"), ("mut 1", "cell-int"), ("mut \"s\"", "cell-string"),
+            ("struct{ a := 2.5 }", "struct-empty"), ("[2.5]", "other"),
+        ];
+        let probes: Vec<(String, String)> = VALUES
+            .iter()
+            .flat_map(|(v, want)| {
+                vec![
+                    (format!("{CLASSIFY} f({v})"), format!("value=\"{want}\"")),
+                    (format!("{CLASSIFY} w := {v}; if q: struct{{a: int}} = w {{ \"struct-int\" }} else {{ f(w) }}"), format!("value=\"{want}\"")),
+                ]
+            })
+            .chain([(format!("{CLASSIFY} (f(struct{{ a := 1 }}), f(struct{{ a := \"s\" }}), f(struct{{ a := 2 }}), f(struct{{}}), f([1]), f([\"s\"]), f((1, 2)), f((\"s\", 2)))"), "value=(\"struct-int\", \"struct-string\", \"struct-int\", \"struct-empty\", \"array-int\", \"array-string\", \"tuple-int\", \"tuple-string\")".to_string())])
+            .collect();
+        let np = probes.len();
+        let accs = par_fold(np * (np + 1), Acc::default, |acc, idx| {
+            let (wi, pi) = (idx / np, idx % np);
+            let (p_text, p_want) = (probes[pi].0.clone(), probes[pi].1.clone());
+            // wi == np: P alone
+            let w_text = (wi < np).then(|| probes[wi].0.clone());
+            let got = core::on_big_stack({
+                let (p_text, w_text) = (p_text.clone(), w_text.clone());
+                move || {
+                    if let Some(w) = &w_text {
+                        let _ = program_outcome(w);
+                    }
+                    program_outcome(&p_text)
+                }
+            });
+            acc.runs += 1;
+            if !got.contains(&p_want) {
+                acc.violations.push(Violation {
+                    sig: format!("C05|outcome-depends-on-prior-work|probe#{pi}|after={}", if wi < np { format!("probe#{wi}") } else { "nothing".into() }),
+                    detail: json!({"kind": "program", "stdlib": true, "text": p_text, "run_before_on_the_same_thread": w_text, "expected_to_contain": p_want, "observed": got}),
+                });
+            }
+        });
+        for a in accs {
+            merge(&mut acc, a);
+        }
+    }
+
     // (B2) an imported file is checked and folded in the scope of the program that imports it, and is
     //      an input: the same path imported by different programs, and by the same program after the
     //      file changed, gives each time what a first import gives (no memory of earlier parses)
